@@ -49,6 +49,12 @@ Theorem C11_only_own_field : forall now p e,
 Proof. exact only_own_field. Qed.
 Print Assumptions C11_only_own_field.
 
+(* StreamToQueue(queue, None) (a sub-suite without a route code, ConcurrentStreamTestSuite): nothing is prefixed *)
+Theorem C11_no_code_transparent : forall now p e,
+  existsb has_code p = false -> v_route (expect_event now p e) = v_route e.
+Proof. exact no_code_transparent. Qed.
+Print Assumptions C11_no_code_transparent.
+
 (* table obligation against the live code (Gen/Failfast.v): the callback fires iff the status is
    'fail' or 'uxsuccess' *)
 Theorem C11_failfast_table : forall s, fires s = is_failure s.
@@ -121,7 +127,7 @@ Example C11_example :
   let e := fun (T : Type) (tags : T) st ts => Evt (Some 1) (Some st) tags true None None false None (Some [3]) ts in
   let i := {| tree := Copy [Sink;
                             Tagger [0] [2] [Sink; Tagger [4] [0] [Sink]; FailFast];
-                            Stamp (ToQueue 5 Sink)];
+                            Stamp (ToQueue (Some 5) Sink)];
               caller := [[1; 2]];
               ops := [OStart; OStatus (e _ (TLoc 0) 5 TsNone); OMutate 0 [3]; OStatus (e _ (TLoc 0) 4 (TsGiven (TNaive 7))); OStop;
                       OStop; OStart; OStop] |} in
@@ -146,11 +152,23 @@ Proof. vm_compute. repeat split. Qed.
    placeholder timestamps arrive as they were, only the missing one is filled *)
 Example C11_example_values :
   let e := fun r ts => @Evt tagref (Some 3) (Some 4) TNone true None None false None r ts in
-  let i := {| tree := Stamp (ToQueue 5 (ToQueue 0 Sink)); caller := [];
+  let i := {| tree := Stamp (ToQueue (Some 5) (ToQueue (Some 0) Sink)); caller := [];
               ops := [OStatus (e (Some [7]) (TsGiven (TNaive 3))); OStatus (e None (TsGiven (TOther 1)));
                       OStatus (e (Some [7; 7]) TsNone)] |} in
   let o := fun r ts => [[ESt (@Evt otags (Some 3) (Some 4) None true None None false None r ts)]] in
   wf i
   /\ map s_new (o_steps (model i))
      = [ o (Some [0; 5; 7]) (TsGiven (TNaive 3)); o (Some [0; 5]) (TsGiven (TOther 1)); o (Some [0; 5; 7; 7]) TsFilled ].
+Proof. vm_compute. repeat split. Qed.
+
+(* non-vacuity for routing code None: under a queue without a code 'ab/' stays 'ab/' and None stays None; a queue
+   with code 5 above or below it prefixes once *)
+Example C11_example_no_code :
+  let e := fun r => @Evt tagref (Some 3) (Some 4) TNone true None None false None r TsNone in
+  let i := {| tree := Copy [ToQueue None Sink; ToQueue (Some 5) (ToQueue None Sink); ToQueue None (ToQueue (Some 5) Sink)];
+              caller := []; ops := [OStatus (e (Some [2; 7])); OStatus (e None)] |} in
+  let o := fun r => [ESt (@Evt otags (Some 3) (Some 4) None true None None false None r TsNone)] in
+  wf i
+  /\ map s_new (o_steps (model i))
+     = [ [o (Some [2; 7]); o (Some [5; 2; 7]); o (Some [5; 2; 7])]; [o None; o (Some [5]); o (Some [5])] ].
 Proof. vm_compute. repeat split. Qed.
